@@ -105,13 +105,26 @@ End Spec.
 
 (* ---- correspondence check ---------------------------------------------------------------------- *)
 Definition spec_kind (k : mkind) (ds : list decl) (us : list unt) : list inst * term :=
-  match k with KHier => spec flat_leaf ds us | KEdi => spec edi_leaf ds us end.
+  match k with
+  | KHier => spec flat_leaf ds us
+  | KFlat => spec flat_leaf (flat_default_target ds) us
+  | KEdi => spec edi_leaf ds us
+  end.
 
 Definition result_matches (r : list inst * term) (c : hcase) : bool :=
   list_eqb inst_eqb (fst r) (hc_deliv c) && term_matches (snd r) (hc_term c).
 
 (* the machine model reproduces what the implementation did; inside the guards of the theorems
    the recursive specification does too *)
-Definition check_case (c : hcase) : bool :=
+Definition check_hcase (c : hcase) : bool :=
   result_matches (run_kind (hc_kind c) (hc_decls c) (hc_units c)) c
   && (if hc_guard c then result_matches (spec_kind (hc_kind c) (hc_decls c) (hc_units c)) c else true).
+
+(* HC: a run.  VC: accept/reject of a generated schema by the real ValidateSchema against the
+   transcription of what validation enforces. *)
+Inductive c05case := HC (c : hcase) | VC (k : mkind) (ds : list decl) (accepted : bool).
+Definition check_case (c : c05case) : bool :=
+  match c with
+  | HC c => check_hcase c
+  | VC k ds acc => Bool.eqb (valid_kind k ds) acc
+  end.
